@@ -74,3 +74,18 @@ plan(Plan(
             "G:TEXT_TABLE:regexLiteralKeys", "G:ATTR_TABLE:regexLiteralKeys"],
     oracle="c06", design_ref="§7 C06",
 ))
+
+
+def _c19_extra(ctx):
+    from .contracts.tagfns import c19_obligations
+    return c19_obligations(ctx)
+
+
+plan(Plan(
+    id="C19", title="Every tag function creates its own element with the documented default",
+    contracts=[], extra=_c19_extra, oracle="c19", design_ref="§7 C19",
+    claim="exhaustive over all tag functions, full-domain over their arguments: each loop-free body is the constructor call term itself "
+          "(structural identity), defaults checked against the project's inline classification, re-exports by import identity",
+    technique="loop-free pass-through obligations decided by structural identity of the symbolic result; finite side conditions on constants",
+    level_note="assumes Python call semantics for *args/**kwargs forwarding (A4); Tag.__init__'s own type check of _add_ws is covered by the bounded oracle here and by C15's contract",
+))
